@@ -6,7 +6,7 @@ from pyvc import extract, symex
 from pyvc.check import UnitResult
 
 
-def run_contract(prop, target, contract, setups, name=None, to_case=None, post_run=None):
+def run_contract(prop, target, contract, setups, name=None, to_case=None, post_run=None, replay_module=None):
     """symbolically execute `target` once per setup (a setup is a callable (ex, st) building the
     entry state; several setups = case split over configurations) and collect the obligations"""
     u = UnitResult(name or target[1])
@@ -17,6 +17,7 @@ def run_contract(prop, target, contract, setups, name=None, to_case=None, post_r
         return u
     u.functions.append(fx.describe())
     u.to_case = to_case
+    u.replay_module = replay_module
     for label, setup in setups:
         ex = symex.Executor(fx, contract, prop)
         ex.case_label = label
@@ -44,7 +45,7 @@ def run_contract(prop, target, contract, setups, name=None, to_case=None, post_r
 def unit_stft_frame(prop):
     def unit(tier, known):
         from contracts import stft_frame as C
-        return run_contract(prop, C.TARGET, C.contract(), [("", C.setup)], to_case=C.to_case)
+        return run_contract(prop, C.TARGET, C.contract(), [("", C.setup)], to_case=C.to_case, replay_module="rtc.c02")
     unit.__name__ = "stft_frame"
     return unit
 
@@ -54,8 +55,9 @@ def unit_stft(prop, which):
         from contracts import stft_stream as C
         contract = getattr(C, "contract_" + which)()
         setups = [(m, getattr(C, "setup_" + which)(m, known)) for m in C.MODES]
+        to_case, rm = (C.to_case_c04, "rtc.c04") if prop == "C04" else (getattr(C, "to_case_" + which, None), "rtc.c01")
         return run_contract(prop, ("compute", f"{C.CLS}.{'compute_' + which if which in ('full', 'chunk') else which}"), contract, setups,
-                            name="stft_" + which, to_case=getattr(C, "to_case_" + which, None))
+                            name="stft_" + which, to_case=to_case, replay_module=rm)
     unit.__name__ = "stft_" + which
     return unit
 
@@ -65,8 +67,69 @@ def _scales(prop):
     return scales.unit_scales(prop)
 
 
+def unit_fbf(prop):
+    def unit(tier, known):
+        from contracts import stft_stream as C
+        to_case, rm = (C.to_case_c04, "rtc.c04") if prop == "C04" else (C.to_case_stream, "rtc.c01")
+        return run_contract(prop, ("compute", "frame_by_frame_calculation"), C.contract_fbf(), [("", C.setup_fbf)], name="frame_by_frame",
+                            to_case=to_case, replay_module=rm)
+    unit.__name__ = "frame_by_frame"
+    return unit
+
+
+def unit_stft_fresh(prop):
+    """lemma: the state the constructor leaves (constants read from __init__'s AST) and the state finalize() leaves
+    both satisfy the data invariant of an empty utterance - so a finalized computer is indistinguishable, through the
+    contracts of compute_chunk / finalize / compute_full, from a freshly constructed one"""
+    def unit(tier, known):
+        import ast
+        import z3
+        from contracts import stft_stream as C
+        from pyvc import api
+        from pyvc.symex import Obligation, State, Executor, Contract
+        u = UnitResult("stft_fresh_state")
+        try:
+            fx = extract.get_function("compute", f"{C.CLS}.__init__")
+        except KeyError as e:
+            u.outside.append(("compute:__init__", str(e)))
+            return u
+        u.functions.append(fx.describe())
+        consts = {}
+        for n in ast.walk(fx.node):
+            if isinstance(n, ast.Assign) and len(n.targets) == 1 and isinstance(n.targets[0], ast.Attribute) \
+                    and isinstance(n.targets[0].value, ast.Name) and n.targets[0].value.id == "self":
+                v = n.value
+                if isinstance(v, ast.Constant):
+                    consts[n.targets[0].attr] = v.value
+                elif isinstance(v, ast.Attribute) and ast.unparse(v) == "np.float64":
+                    consts[n.targets[0].attr] = "np.float64"
+        want = {"_started": False, "_first_frame": True, "_buf_len": 0, "_hist_len": 0, "_chunk_dtype": "np.float64"}
+        for k, v in want.items():
+            ob = Obligation(f"{prop}.__init__.initial_{k}", [], z3.BoolVal(consts.get(k, "<missing>") == v and type(consts.get(k)) == type(v)), "lemma", fx.lineno)
+            u.obligations.append(ob)
+        # Inv(X = empty, T = 0, E = 0) holds in that state, whatever the buffer contains
+        for mode in C.MODES:
+            ex = Executor(fx, Contract(target="lemma", consts=C.consts()), prop)
+            ex.fname = "fresh_state"
+            st = State()
+            C.base_setup(ex, st, mode)
+            st.fields[("self", "_started")] = False
+            st.fields[("self", "_first_frame")] = True
+            st.fields[("self", "_buf_len")] = 0
+            st.fields[("self", "_hist_len")] = 0
+            st.ghost["T"], st.ghost["E"] = 0, 0
+            ex.entry = st.copy()
+            for lab, e in C.INV:
+                ex.oblige(st, ex.spec(st, e), f"inv_of_empty_utterance.{lab}[{mode}]", "lemma")
+            u.obligations += ex.obligations
+        return u
+    unit.__name__ = "stft_fresh_state"
+    return unit
+
+
 UNITS = {
     "C19": [_scales("C19")],
     "C02": [unit_stft_frame("C02"), unit_stft("C02", "full")],
-    "C01": [unit_stft("C01", "finalize"), unit_stft("C01", "chunk")],
+    "C01": [unit_stft("C01", "finalize"), unit_stft("C01", "chunk"), unit_fbf("C01")],
+    "C04": [unit_stft("C04", "finalize"), unit_stft("C04", "chunk"), unit_stft("C04", "full"), unit_fbf("C04"), unit_stft_fresh("C04")],
 }
